@@ -163,7 +163,7 @@ func runProducers(c *Ctx, P string, orc outOracle) {
 	// (b) explicit-state search
 	depth, maxStates := 5, 400000
 	if !c.Quick() {
-		depth, maxStates = 8, 3000000
+		depth, maxStates = 7, 1500000
 	}
 	st := bufferBFS(c, P+"/state", depth, maxStates, nil, func(s *buffer.Buffer, op *bufOp, s2 *buffer.Buffer, w *Worker) {
 		c2 := s2.VerifClone()
